@@ -29,7 +29,7 @@ def QCMaker.append (m : QCMaker) (c : Committee) (v : Vote) : Except AErr (QCMak
     let votes := m.votes ++ [(v.author, v.sig)]
     let weight := m.weight + c.stake v.author
     let used := v.author :: m.used
-    if weight ≥ c.quorum then
+    if Gen.qcMakerQuorum weight c.quorum then
       .ok ({ weight := 0, votes := votes, used := used },
            some { hash := v.hash, round := v.round, votes := votes })
     else .ok ({ weight := weight, votes := votes, used := used }, none)
@@ -41,7 +41,7 @@ def TCMaker.append (m : TCMaker) (c : Committee) (t : Timeout) : Except AErr (TC
     let votes := m.votes ++ [(t.author, t.sig, t.highQC.round)]
     let weight := m.weight + c.stake t.author
     let used := t.author :: m.used
-    if weight ≥ c.quorum then
+    if Gen.tcMakerQuorum weight c.quorum then
       .ok ({ weight := 0, votes := votes, used := used }, some { round := t.round, votes := votes })
     else .ok ({ weight := weight, votes := votes, used := used }, none)
 
